@@ -265,4 +265,139 @@ Proof.
   split; [exact L|]. intro Hold.
   destruct (deliver_prepares_facts v h ds x Hv Hds) as (_ & _ & _ & _ & _ & _ & _ & _ & B9 & _). cbn zeta in B9. apply B9; assumption.
 Qed.
+
+(* ---- accepting a proposal: what "joined view v and holds its proposal" means at one member ---- *)
+Definition accepted (x : tc) (v h : N) : Prop :=
+  tc_v x = v /\ (exists en, is_preprepared (tc_t x) v h = Some en /\ s_id (pe_snd en) = leaderOf (t_cm (tc_t x)) v) /\
+  has_p (tc_t x) v h me = true /\ exists to, In (OSend to (MP (mk_ref T_PREPARE c (t_h (tc_t x)) v h) (my_sig c))) (tc_out x).
+
+Lemma process_pp_joins x r s blk : tc_v x = r_view r -> get_pp (tc_t x) (r_view r) = None -> r_height r = t_h (tc_t x) ->
+  s_id s = leaderOf (t_cm (tc_t x)) (r_view r) ->
+  accepted (process_pp c wm shut x r s (Some blk)) (r_view r) (r_hash r).
+Proof.
+  intros Ev Hnone Hh Hl. unfold process_pp. rewrite Ev, N.eqb_refl. cbn [negb]. unfold send_all.
+  set (v := r_view r) in *. set (h := r_hash r) in *. set (ent := {| pe_ref := r; pe_snd := s; pe_blk := Some blk |}).
+  set (t0 := store_pp v ent (tc_t x)). set (t1 := store_p v h (my_sig c) t0).
+  set (x0 := if has_pp (tc_t x) v then x else _). set (x0' := if has_p t0 v h me then x0 else _).
+  assert (F0 : tc_t x0' = tc_t x /\ tc_v x0' = tc_v x).
+  { subst x0' x0. destruct (has_p _ _ _ _), (has_pp _ _); split; reflexivity. }
+  destruct F0 as (A1 & A2).
+  set (x1 := tc_emit _ (tc_set_t t1 x0')).
+  assert (T1 : t_h t1 = t_h (tc_t x) /\ t_cm t1 = t_cm (tc_t x) /\ t_p t1 = store_in (t_p (tc_t x)) v h (my_sig c) /\ get_pp t1 v = Some ent).
+  { subst t1 t0. rewrite get_pp_store_p, get_pp_store_pp, Hnone, N.eqb_refl. unfold store_pp. rewrite Hnone. cbn. auto. }
+  destruct T1 as (U1 & U2 & U3 & U4).
+  destruct (check_prepared_own c wm shut x1 v h) as (_ & P2 & _ & _ & P5 & P6 & [P7 P7'] & _ & _ & _ & Pout & _). cbn zeta in *.
+  assert (B1 : tc_t x1 = t1) by reflexivity. assert (B2 : tc_v x1 = tc_v x) by (subst x1; exact A2).
+  split; [rewrite P2, B2; exact Ev|]. split.
+  - exists ent. split; [|cbn [pe_snd]; rewrite P7', B1, U2; exact Hl].
+    unfold is_preprepared. rewrite (get_pp_ext _ _ v P5), B1, U4. cbn [pe_blk pe_ref]. fold h. rewrite N.eqb_refl. reflexivity.
+  - split.
+    + unfold has_p. rewrite P6, B1, U3. apply (in_bucket_after_store _ v h (my_sig c)).
+    + eexists. apply Pout. subst x1. cbn [tc_emit tc_out]. left. rewrite P7, B1, U1, <- Hh. reflexivity.
+Qed.
+
+(* a standalone PREPREPARE of the view's leader, received in that view with no proposal stored for it *)
+Theorem preprepare_accepted x r s blk : tc_v x = r_view r -> get_pp (tc_t x) (r_view r) = None -> r_height r = t_h (tc_t x) ->
+  r_type r = T_PREPREPARE -> r_inst r = c_inst c -> s_ok s = true -> s_id s = leaderOf (t_cm (tc_t x)) (r_view r) ->
+  ctx_ok wm shut (r_height r, r_view r) = true -> validProposal me (r_height r) (Some blk) (r_hash r) = true ->
+  accepted (handle_pp c wm shut x r s (Some blk)) (r_view r) (r_hash r).
+Proof.
+  intros Ev Hnone Hh Ty Hi Sok Hl Hctx Hvp. unfold handle_pp, validate_pp. rewrite Hnone, Ty, Hi, Sok, Hl, !N.eqb_refl, Hctx, Hvp. cbn [negb andb].
+  apply process_pp_joins; assumption.
+Qed.
+
+(* a NEW_VIEW with a well-formed certificate, received in a view not above it with no proposal stored for it *)
+Theorem new_view_accepted x ninst nh nvw vs sg pp pps blk :
+  tc_v x <= nvw -> s_ok sg = true -> s_id sg = leaderOf (t_cm (tc_t x)) nvw ->
+  votes_ok (tc_t x) nh nvw vs = true -> r_view pp = nvw -> r_height pp = nh -> nh = t_h (tc_t x) ->
+  forallb (vote_valid c (t_cm (tc_t x)) (t_h (tc_t x))) vs = true ->
+  validate_pp c (tc_t x) pp pps = true ->
+  match latest_vote vs with
+  | Some lv => exists p, v_proof lv = Some p /\ commitsTo nh (Some blk) (r_hash (pf_ppref p)) = true /\ r_hash pp = r_hash (pf_ppref p)
+  | None => ctx_ok wm shut (nh, nvw) = true /\ validProposal (c_me c) (r_height pp) (Some blk) (r_hash pp) = true
+  end ->
+  accepted (handle_nv c wm shut x T_NEW_VIEW ninst nh nvw vs sg pp pps (Some blk)) nvw (r_hash pp).
+Proof.
+  intros Hv Sok Sid VO Pv Ph Hnh VV VP BL. unfold handle_nv.
+  destruct (N.ltb_spec nvw (tc_v x)); [lia|]. rewrite N.eqb_refl, Sok, Sid, N.eqb_refl, VO, Pv, Ph, !N.eqb_refl, VV, VP. cbn [negb].
+  assert (K : accepted (match init_view nvw (tc_set_t (set_latest nvw (tc_t x)) x) with Some x1 => process_pp c wm shut x1 pp pps (Some blk) | None => tc_set_t (set_latest nvw (tc_t x)) x end) nvw (r_hash pp)).
+  { unfold init_view. cbn [tc_set_t tc_v]. destruct (N.ltb_spec nvw (tc_v x)); [lia|].
+    set (x1 := tc_emit _ _).
+    assert (Hn0 : get_pp (tc_t x) (r_view pp) = None) by (apply (validate_pp_none c (tc_t x) pp pps VP)).
+    rewrite <- Pv. apply process_pp_joins.
+    - subst x1. cbn [tc_emit tc_set_v tc_v]. symmetry. exact Pv.
+    - subst x1; cbn [tc_emit tc_set_v tc_set_t tc_t]. exact Hn0.
+    - subst x1; cbn [tc_emit tc_set_v tc_set_t tc_t set_latest t_h]. congruence.
+    - subst x1; cbn [tc_emit tc_set_v tc_set_t tc_t set_latest t_cm].
+      unfold validate_pp in VP. rewrite Hn0 in VP. apply andb_true_iff in VP. destruct VP as [_ VP]. apply N.eqb_eq in VP. exact VP. }
+  destruct (latest_vote vs) as [lv|].
+  - destruct BL as (p & Ep & Cm & Eh). rewrite Ep, Cm, Eh, N.eqb_refl. cbn [negb]. rewrite <- Eh. exact K.
+  - destruct BL as [Cx Vp]. rewrite ?Ph in Vp. rewrite Cx, Vp. cbn [negb]. exact K.
+Qed.
+
+(* the leader's side: the NEW_VIEW it sends on being elected leaves it in the view, holding its own proposal *)
+Lemma on_elected_leader_holds x v vs o : is_mnv o = true -> In o (tc_out (on_elected c wm shut x v vs)) -> ~ In o (tc_out x) ->
+  get_pp (tc_t x) v = None ->
+  let x' := on_elected c wm shut x v vs in
+  tc_v x' = v /\ exists b h, o = OSend (others c (t_cm (tc_t x))) (MNV T_NEW_VIEW (c_inst c) (t_h (tc_t x)) v (map fst vs) (my_sig c) (mk_ref T_PREPREPARE c (t_h (tc_t x)) v h) (my_sig c) (Some b)) /\
+    is_preprepared (tc_t x') v h = Some {| pe_ref := mk_ref T_PREPREPARE c (t_h (tc_t x)) v h; pe_snd := my_sig c; pe_blk := Some b |}.
+Proof.
+  intros Ho Hin Hnot Hnone. cbn zeta. revert Hin. unfold on_elected, init_view. cbn [tc_set_t tc_v].
+  destruct (N.ltb _ _); [intro Hin; contradiction|].
+  assert (G : forall en t, get_pp t v = None -> is_preprepared (store_pp v en t) v (r_hash (pe_ref en)) = match pe_blk en with Some _ => Some en | None => None end).
+  { intros en t Hn. unfold is_preprepared. rewrite get_pp_store_pp, Hn, N.eqb_refl. destruct (pe_blk en); [rewrite N.eqb_refl|]; reflexivity. }
+  destruct (latest_block vs) as [[b h]|] eqn:El.
+  - unfold send_all. cbn [tc_emit tc_set_t tc_set_v tc_out tc_t set_latest t_h t_cm tc_v].
+    match goal with |- context [store_pp v ?en ?t0] => assert (Ecm : t_cm (store_pp v en t0) = t_cm (tc_t x)) by (unfold store_pp; destruct (get_pp _ _); reflexivity) end.
+    rewrite Ecm. intros [<-|Hin].
+    + split; [destruct (has_pp _ _); reflexivity|]. exists b, h. split; [reflexivity|]. apply (G {| pe_ref := mk_ref T_PREPREPARE c (t_h (tc_t x)) v h; pe_snd := my_sig c; pe_blk := Some b |}). exact Hnone.
+    + exfalso. destruct (has_pp _ _); cbn [tc_emit tc_out] in Hin; repeat (destruct Hin as [Hin|Hin]; [subst o; discriminate Ho|]); contradiction.
+  - destruct (negb _).
+    + cbn [tc_emit tc_set_v tc_set_t tc_out]. intros [Hin|Hin]; [subst o; discriminate Ho|contradiction].
+    + unfold send_all. cbn [tc_bump tc_emit tc_set_t tc_set_v tc_out tc_t set_latest t_h t_cm tc_fresh tc_v].
+      match goal with |- context [store_pp v ?en ?t0] => assert (Ecm : t_cm (store_pp v en t0) = t_cm (tc_t x)) by (unfold store_pp; destruct (get_pp _ _); reflexivity) end.
+      rewrite Ecm. intros [<-|Hin].
+      * split; [destruct (has_pp _ _); reflexivity|]. eexists; eexists. split; [reflexivity|].
+        match goal with |- is_preprepared (store_pp v ?en ?t0) _ _ = _ => apply (G en t0) end. exact Hnone.
+      * exfalso. destruct (has_pp _ _); cbn [tc_emit tc_out] in Hin; repeat (destruct Hin as [Hin|Hin]; [subst o; discriminate Ho|]); contradiction.
+Qed.
 End Live.
+
+(* sender and receiver together: the NEW_VIEW a correct elected leader sends makes every correct member whose view is
+   not higher and that has no proposal for the view accept it (move to the view, store the proposal, PREPARE it) *)
+Theorem honest_new_view_is_accepted cs cr wm shut xa v o wm' shut' xr :
+  SInv cs xa -> vinv (tc_t xa) -> is_mnv o = true ->
+  In o (tc_out (check_elected cs wm shut xa v)) -> ~ In o (tc_out xa) ->
+  leaderOf (t_cm (tc_t xa)) v = c_me cs ->
+  c_inst cr = c_inst cs -> t_cm (tc_t xr) = t_cm (tc_t xa) -> t_h (tc_t xr) = t_h (tc_t xa) ->
+  tc_v xr <= v -> get_pp (tc_t xr) v = None ->
+  exists to ty i h vs s pp pps b, o = OSend to (MNV ty i h v vs s pp pps b) /\
+    (((forall vt, In vt vs -> v_proof vt = None) -> ctx_ok wm' shut' (h, v) = true /\ validProposal (c_me cr) h b (r_hash pp) = true) ->
+     accepted cr (handle_nv cr wm' shut' xr ty i h v vs s pp pps b) v (r_hash pp)).
+Proof.
+  intros SI VI Ho Hin Hnot Hl Hinst Hcm Hh Hv Hnone.
+  unfold check_elected in Hin. destruct (N.leb _ _); [contradiction|].
+  destruct (votes_of (tc_t xa) v) as [|e0 r0] eqn:Ev; [contradiction|]. rewrite <- Ev in *.
+  destruct (isQ_ids (t_cm (tc_t xa)) (map (fun e => s_id (v_snd (fst e))) (votes_of (tc_t xa) v))) eqn:Q; [|contradiction].
+  destruct (on_elected_nv_shape cs wm shut xa v (votes_of (tc_t xa) v) o Ho Hin) as [?|(b & h & -> & LB)]; [contradiction|].
+  set (vs := votes_of (tc_t xa) v) in *.
+  do 9 eexists. split; [reflexivity|]. intros HB.
+  assert (VG : forall vt ob, In (vt, ob) vs -> vc_good cs (tc_t xa) v vt ob) by (intros vt ob Hi; apply (si_vc _ _ SI); apply votes_of_In; exact Hi).
+  change v with (r_view (mk_ref T_PREPREPARE cs (t_h (tc_t xa)) v h)) at 4.
+  apply new_view_accepted; auto.
+  - cbn. rewrite Hcm. symmetry. exact Hl.
+  - unfold votes_ok. rewrite Hcm, map_map. rewrite Q. cbn [andb]. apply andb_true_iff. split.
+    + apply forallb_forall. intros vt Hvt. apply in_map_iff in Hvt. destruct Hvt as ([vt' ob] & <- & Hi). destruct (VG _ _ Hi) as (A & B & _). cbn [fst]. rewrite A, B, !N.eqb_refl. reflexivity.
+    + apply nodupN_NoDup. rewrite ?map_map. apply VI.
+  - apply forallb_forall. intros vt Hvt. apply in_map_iff in Hvt. destruct Hvt as ([vt' ob] & <- & Hi). destruct (VG _ _ Hi) as (A & B & VS & _). cbn [fst].
+    rewrite Hcm, Hh. apply vote_spec_valid. rewrite A. apply (vote_spec_inst cs cr); auto.
+  - unfold validate_pp. cbn [mk_ref r_view r_type r_inst]. rewrite Hnone, !N.eqb_refl, Hinst, N.eqb_refl. cbn. rewrite Hcm, Hl, N.eqb_refl. reflexivity.
+  - assert (CS : forall vt ob, In (vt, ob) vs -> (ob = None <-> v_proof vt = None)).
+    { intros vt ob Hi. destruct (VG _ _ Hi) as (_ & _ & _ & M). destruct ob, (v_proof vt); try contradiction; split; intro; try discriminate; reflexivity. }
+    pose proof (latest_same vs CS) as LS. unfold latest_block in LB.
+    destruct (latest_block_aux vs) as [[[w q] b']|] eqn:Ea.
+    + destruct LS as [LS1 LS2]. rewrite LS1. destruct LB as [LB|LB]; [|discriminate]. inversion LB; subst b' h. exists q. split; [exact LS2|].
+      pose proof (latest_block_aux_spec vs) as SP. rewrite Ea in SP. destruct SP as (Hi & _ & _). destruct (VG _ _ Hi) as (_ & _ & VS & M). rewrite LS2 in M.
+      destruct (vs_proof _ _ _ _ _ VS q LS2) as [_ _ _ [_ Sh] _ _ _ _ _]. split; [exact M|]. cbn [mk_ref r_hash]. exact Sh.
+    + rewrite LS. apply HB. pose proof (latest_vote_spec (map fst vs)) as SP. rewrite LS in SP. exact SP.
+Qed.
